@@ -33,13 +33,13 @@ Definition smacro v max (s : ssh * list sloc) (i : nat) : ssh * list sloc :=
       match s_pc lo with
       | SStart => sys_step _ _ (sstep v max) s i
       | SChecked => step_while (sstep v max) s_in_flight 5 s i
-      | SAdmitted => sys_step _ _ (sstep v max) s i
+      | SAccepted => sys_step _ _ (sstep v max) s i
       | _ => s
       end
   | None => s
   end.
 Definition s_outcome (lo : sloc) : N :=
-  match s_pc lo with SAdmitted => 1 | SRefused => 2 | SClosed => 3 | _ => 0 end%N.
+  match s_pc lo with SAccepted => 1 | SRefused => 2 | SClosed => 3 | _ => 0 end%N.
 
 Definition pair_ok (a b : N) (v : tval) : bool := N.eqb a (vn (vnth 0 v)) && N.eqb b (vn (vnth 1 v)).
 
@@ -184,15 +184,15 @@ Definition quota_check (v : tval) : bool :=
 (* ---- single read faults at a full quota: [4; policy; max; nrecs; trace; outcomes]
    trace = class of every storage read of the request in order (0 index read, 1 by-id read of one of the client's records,
    2 any other read); outcomes[k] = what the request did when exactly read k failed (0 refused by the quota, 1 failed,
-   2 ADMITTED) *)
+   2 ACCEPTED) *)
 Definition dec_policy (v : tval) : fpolicy := match vn v with 0 => Abort | 1 => SkipRecord | _ => Open end%N.
 Definition a_code (r : ares) : N := match r with ARefused => 0 | AFailed => 1 | ACreated => 2 end%N.
 Definition class1_before (tr : list N) (k : nat) : nat := length (filter (N.eqb 1) (firstn k tr)).
 Definition fault_outcome (p : fpolicy) (max nrecs : nat) (tr : list N) (k : nat) : N :=
   let recs := repeat true nrecs in
   match nth k tr 9%N with
-  | 0 => a_code (fst (admit_once p max recs true []))
-  | 1 => a_code (fst (admit_once p max recs false (repeat false (class1_before tr k) ++ [true])))
+  | 0 => a_code (fst (accept_once p max recs true []))
+  | 1 => a_code (fst (accept_once p max recs false (repeat false (class1_before tr k) ++ [true])))
   | _ => 1
   end%N.
 Definition qfault_check (v : tval) : bool :=
